@@ -168,3 +168,16 @@ Section PerConn.
     - intros c cmds _ Hsub. now apply asking_do_sub.
   Qed.
 End PerConn.
+
+(** what [expected] is when the server accepts the command: literally the server's reply to it *)
+Lemma expected_miss_is_server_reply lookup srv qerr optin skip it :
+  not_tx (it_argv it) ->
+  lookup (fst (cache_key (it_argv it))) (snd (cache_key (it_argv it))) = LMiss ->
+  qerr (it_argv it) = None -> qerr (pttl_cmd (it_argv it)) = None ->
+  expected lookup srv qerr optin skip it = Ok (new_result (srv (it_argv it))).
+Proof.
+  intros Htx Hl Hq Hp. unfold expected. destruct (cache_key (it_argv it)) as [k c] eqn:E. cbn [fst snd] in Hl. rewrite Hl.
+  destruct skip.
+  - rewrite single_miss2 by assumption. unfold dec2, q_or. now rewrite Hq.
+  - rewrite single_miss5 by assumption. unfold dec5, aborted, rejected. now rewrite Hp, Hq.
+Qed.
